@@ -479,6 +479,19 @@ def check_C18(tier):
     mism = de.replay_decoder_vectors(vectors[:20000], "default", True)
     rep.traces += min(len(vectors), 20000)
     judge_mismatches(rep, "legacy2", mism, "default", True, default_classify)
+    # modern-only strings over the broad alphabets and tables: flag on = flag off, whatever the outcome
+    for tab, vectors in broad_vectors(rep, quick, "mo"):
+        de.set_table(TABLES[tab])
+        try:
+            for v in vectors:
+                s_ = "".join(v["inp"])
+                a, b = de.call_decoder(s_, False), de.call_decoder(s_, True)
+                rep.traces += 1
+                if a != b:
+                    rep.violation("compatible=True changes a string without legacy symbols under table %s: %r: %r vs %r" % (
+                        tab, s_, a, b), {"tokens": v["inp"], "table": TABLES[tab]})
+        finally:
+            de.set_table("default")
     # modern-only strings: flag on = flag off (long random strings)
     rng = random.Random(seed() + 1818)
     inputs = [gens.alive_selfies(rng, rng.randint(3, 120)) for _ in range(200 if quick else 2000)]
@@ -837,6 +850,19 @@ def check_C14(tier):
     return rep.finish()
 
 
+def broad_vectors(rep, quick, tag):
+    """Specification vectors over several alphabets and tables (as C02 enumerates them), for checks whose
+    oracle is an equality between two runs of the implementation (flags, histories)."""
+    out = []
+    n = 3 if quick else 4
+    for alpha, tab in (("branch", "default"), ("ring", "default"), ("frag", "default"), ("caps", "tight"),
+                       ("caps", "hypervalent"), ("bad", "default")):
+        results, vectors = de.run_decoder_tlc("%s_%s_%s" % (tag, alpha, tab), DEC[alpha], TABLES[tab], n, emit=True, fastjit=True)
+        add_results(rep, "%s_%s_%s" % (tag, alpha, tab), results, max_symbols=n, vectors=len(vectors))
+        out.append((tab, vectors))
+    return out
+
+
 # --------------------------------------------------------------------------
 # C17 - attribution is observation-only and truthful about tokens
 # --------------------------------------------------------------------------
@@ -900,6 +926,22 @@ def check_C17(tier):
         for r_ in recs[:: max(1, len(recs) // 2)][:2]:
             rep.sample({"input": "".join(r_["inp"]), "output": r_["out"], "attribution": r_.get("attr", [])[:4]})
         trace_validate(rep, "C17_" + nm, recs, "default")
+    # attribute=True never changes the translation (nor whether it raises): all vectors of the broad alphabets,
+    # under the table they were generated for, with and without compatible=True
+    for tab, vectors in broad_vectors(rep, quick, "st"):
+        de.set_table(TABLES[tab])
+        try:
+            for v in vectors:
+                s_ = "".join(v["inp"])
+                for compat in (False, True):
+                    k0, v0 = de.call_decoder(s_, compat, False)
+                    k1, v1 = de.call_decoder(s_, compat, True)
+                    rep.traces += 1
+                    if (k0, v0) != (k1, v1[0] if k1 == "ok" else v1):
+                        rep.violation("attribute=True changes the result of decoder(%r, compatible=%s) under table %s: %r vs %r" % (
+                            s_, compat, tab, (k0, v0), (k1, v1[0] if k1 == "ok" else v1)), {"tokens": v["inp"], "table": TABLES[tab]})
+        finally:
+            de.set_table("default")
     rng = random.Random(seed() * 17 + 1)
     for compat in (False, True):
         inputs = [gens.alive_selfies(rng, rng.randint(3, 80 if quick else 300), p_dot=0.03, p_nop=0.05)
